@@ -165,7 +165,7 @@ func (_this *interfaceBuilder) BuildFromTime(ctx *Context, value compact_time.Ti
 	// fields it doesn't have (and come back as a timestamp) if it were
 	// converted to a time.Time.
 	if value.Type == compact_time.TimeTypeTimestamp {
-		if gTime, err := common.CompactTimeToGoTime(value); err == nil {
+		if gTime, err := value.AsGoTime(); err == nil {
 			dst.Set(reflect.ValueOf(gTime))
 			return dst
 		}
